@@ -1,5 +1,6 @@
 import FV.Props.C03
 import FV.Props.C17Ser
+import FV.EmplaceImage
 /-! # C03, clause 3 — byte-exact image of portable values (see `C03_statement` in `Props/C03.lean`) -/
 namespace FV.Props
 open FV
@@ -58,6 +59,21 @@ theorem C03_struct_fields_at_c_offsets (fs : List Ty) (last : Ty) (h : (Ty.ustru
   rw [List.append_assoc, drop_take_eq (a := b1.take _ ++ (ol.bytes ++ bytes.drop _)) (b := b1) (n := ceilMul (foldSize (dictL fs) 0) last.dict.align)
     (by rw [List.take_append_of_le_length (by simp only [List.length_take, hb1l]; omega), List.take_take, Nat.min_self]) (by omega)]
   exact hel i d v P hd hv hP
+
+/-- **C03, clause 3 for native enum layouts.** After a generated `…Init` of an unsized enum succeeded (variant with sized
+fields only): the first `tag.size` bytes are the encoding of the variant index, and every field sits at `DATA_OFFSET` plus its C
+offset with exactly the given image; everything in between is padding. -/
+theorem C03_enum_tag_and_fields_at_c_offsets (tag : LenTy) (vs : List (List Ty)) (h : (Ty.uenum tag vs).WF)
+    (idx : Nat) (vals : List Bytes) (hw : InitWT (.uenum tag vs) (.uenum idx vals none)) (s : Slice)
+    (hal : s.addr % (Ty.uenum tag vs).dict.align = 0) (hlen : (Ty.uenum tag vs).dict.minSize ≤ s.len)
+    (o : EO) (ho : emplaceU (.uenum tag vs) (.uenum idx vals none) s = .ok o) (hres : o.res = .ok ()) :
+    o.bytes.take tag.size = encLenTy tag idx ∧
+    ∀ (i : Nat) (d : Dict) (v : Bytes) (P : Nat), (dictL (vs.getD idx []))[i]? = some d → vals[i]? = some v →
+      (posList (dictL (vs.getD idx [])) 0)[i]? = some P →
+      (o.bytes.drop (ceilMul tag.size (max tag.align (alignLL (dictLL vs))) + P)).take d.ssize = v := by
+  simp only [Ty.WF] at h
+  simp only [InitWT] at hw
+  exact uenum_none_image tag h.1 vs (lawLL vs h.2.1) idx hw.1 vals (sizedL_allSized _ hw.2.2.1) hw.2.2.2 s hal hlen o ho hres
 
 /-- non-vacuity: `S1 { a: u32, b: FlatVec<u8,u16> }` with three bytes in `b` occupies 12 bytes (4 + 2 + 3, padded to 4) -/
 example : sizeSpec S1 (.ustruct [[1,0,0,0]] (.vecArr [[7],[8],[9]])) = 12 := by decide
